@@ -89,13 +89,18 @@ class Check:
             if known_matches(k, conjunct, case):
                 self.known_hits[k["id"]] = self.known_hits.get(k["id"], 0) + 1
                 return
+        for v in self.violations:
+            if v["case_id"] == case_id:
+                if conjunct not in v["conjuncts"]:
+                    v["conjuncts"].append(conjunct)
+                return
         self._nviol += 1
-        if replay is None and case is not None:
+        if replay is None and case is not None and self._nviol <= 50:
             os.makedirs(self.outdir, exist_ok=True)
             replay = os.path.join(self.outdir, "viol-%s-%d.ndjson" % (self.tier, self._nviol))
             with open(replay, "w") as f:
                 f.write(json.dumps(case, separators=(",", ":")) + "\n")
-        self.violations.append(dict(conjunct=conjunct, case_id=case_id, replay=replay))
+        self.violations.append(dict(conjuncts=[conjunct], case_id=case_id, replay=replay))
 
     def finish(self):
         self.ev.violations = len(self.violations)
@@ -106,13 +111,14 @@ class Check:
             if self.known_hits.get(k["id"]):
                 print("KNOWN-FINDING: property=%s %s (%s; observed %d times)" % (self.prop, k["id"], k["what"], self.known_hits[k["id"]]))
         if self.violations:
-            shown = set()
+            counts = {}
+            for v in self.violations:
+                for c in v["conjuncts"]:
+                    counts[c] = counts.get(c, 0) + 1
+            print("%d violating cases; failing conjuncts: %s" % (len(self.violations), json.dumps(counts, sort_keys=True)))
             for v in self.violations[:20]:
-                if v["replay"] in shown:
-                    continue
-                shown.add(v["replay"])
                 print("VIOLATION property=%s replay=%s" % (self.prop, v["replay"]))
-                print("  failing conjunct: %s (case %s)" % (v["conjunct"], v["case_id"]))
+                print("  failing conjuncts: %s (case %s)" % (", ".join(v["conjuncts"]), v["case_id"]))
             return 1
         print("OK property=%s tier=%s: held on everything explored (%d model states, %d implementation traces)"
               % (self.prop, self.tier, self.ev.cov["states"], self.ev.cov["traces_validated_against_impl"]))
